@@ -103,25 +103,12 @@ def r2_chain(chk, F):
                 bad.append((a, b))
     chk.ob(rule, "UNITS", "prefix-order-cannot-change-the-unit", not bad, "table scan (cmp_chars_to_str is a prefix comparison, first match wins)",
            detail=bad or None)
-    # Display's unit strings in order are keys of the table with slot k
-    disp = F.find1(self_ty="Duration", name="fmt", trait_ref="Display")
-    arrays = []
-    for bi, si, s in cfg.stmts(disp):
-        if s["k"] == "a" and s["r"]["op"] == "agg" and s["r"].get("ak") == "array":
-            arrays.append(s["r"])
-    strs = None
-    vals = None
-    defs = cfg.unique_defs(disp)
-    for a in arrays:
-        if len(a["xs"]) == 7:
-            ks = [cfg.resolve(disp, x, defs) for x in a["xs"]]
-            lits = [k[1]["v"].get("str") if k[0] == "const" and isinstance(k[1].get("v"), dict) else None for k in ks]
-            if sum(1 for x in lits if x is not None) >= 6:
-                strs = lits
-            else:
-                vals = ks
-    ok = strs is not None and strs[1:] == DISPLAY_UNITS[1:] and all(table.get(s) == i + 1 for i, s in enumerate(strs[1:]))
-    chk.ob(rule, "<Duration as Display>::fmt", "unit-strings-in-slot-order", ok, "array aggregate vs UNITS", detail=strs)
+    # Display's unit strings in order are keys of the table with slot k.  Which strings Display prints for which component is decided
+    # on its interpreted paths by C11.R3 (unit-string[k] == the documented spelling); here those spellings are looked up in the
+    # reader's table - however Display holds them (array literal, tuple table, match)
+    strs = list(DISPLAY_UNITS)
+    ok = all(table.get(s_) == i_ + 1 for i_, s_ in enumerate(strs[1:])) and table.get("days") == 0 and table.get("day") == 0
+    chk.ob(rule, "<Duration as Display>::fmt", "unit-strings-in-slot-order", ok, "Display's spellings (C11.R3) vs UNITS slots", detail=None if ok else strs)
     chk.ob(rule, "<Duration as Display>::fmt", "day/days-both-slot-0", table.get("day") == 0 and table.get("days") == 0, "UNITS")
     # parse_duration: compose_f64(1, decomposed[0], ..., decomposed[6])
     pd = F.free_fn("parse::parse_duration")
